@@ -210,11 +210,14 @@ class BasicContiguousVector<cntgs::Options<Option...>, Parameter...>
         const auto it_first = make_iterator(first);
         const auto it_last = make_iterator(last);
         BasicContiguousVector::destruct(it_first, it_last);
-        if (last.index() < current_size && first.index() != last.index())
+        if (first.index() != last.index())
         {
-            move_elements_forward(last.index(), first.index());
+            if (last.index() < current_size)
+            {
+                move_elements_forward(last.index(), first.index());
+            }
+            locator_->resize(current_size - (last.index() - first.index()), memory_begin());
         }
-        locator_->resize(current_size - (last.index() - first.index()), memory_begin());
         return it_first;
     }
 
